@@ -43,5 +43,9 @@ n2 = sw(a2, 5, axis=0).sum(axis=-1)
 check("broadcast_to", lambda: da.broadcast_to(s2(), (2, 16, 2)).compute(), np.broadcast_to(n2, (2, 16, 2)))
 check("blockwise adjust_chunks tuple", lambda: da.blockwise(lambda b: np.repeat(b, 2), "i", s(), "i", dtype=s().dtype, adjust_chunks={"i": tuple(2 * c for c in s().chunks[0])}).compute(), np.repeat(ns, 2))
 check("map_overlap two arrays", lambda: da.map_overlap(lambda p, q: p + np.roll(q, 1), s(), da.from_array(w, chunks=s().chunks), depth=1, boundary="periodic", dtype=float).compute(), ns + np.roll(w, 1))
+check("bool rows of 2-d", lambda: s2()[da.from_array(np.arange(16) % 3 == 0, chunks=s2().chunks[0])].compute(), n2[np.arange(16) % 3 == 0])
+check("compute_chunk_sizes", lambda: (lambda y: (y.compute_chunk_sizes(), y.compute())[1])(s()[s() > 100]), ns[ns > 100])
+sr = lambda: da.sliding_window_view(da.from_array(np.arange(40.0), chunks=8), 25, axis=0).sum(axis=-1)  # noqa: E731
+check("reshape of a one-block advertisement", lambda: sr().reshape(-1, 1).compute(), sw(np.arange(40.0), 25).sum(axis=-1).reshape(-1, 1))
 check("tsqr R", lambda: abs(da.linalg.tsqr(s()[:, None].astype(float))[1].compute()), abs(np.linalg.qr(ns[:, None].astype(float))[1]))
 sys.exit(1 if bad else 0)
